@@ -384,7 +384,17 @@ func (rw *fileRewriter) run(isMain bool) {
 				rw.unseamed(x.Pos(), "labeled go statement (not rewritten)")
 			}
 		case *ast.SelectStmt:
-			rw.unseamed(x.Pos(), "select statement (channel choice is not behind a seam)")
+			ways := 0
+			for _, cl := range x.Body.List {
+				if cc, ok := cl.(*ast.CommClause); ok && cc.Comm != nil {
+					ways++
+				}
+			}
+			if ways >= 2 {
+				rw.unseamed(x.Pos(), "select with several communication cases (which ready case wins is the runtime's choice)")
+			} else {
+				rw.seam("timer", x.Pos(), "select (runs inside the bubble)")
+			}
 		case *ast.CallExpr:
 			fun := x.Fun
 			if ix, ok := fun.(*ast.IndexExpr); ok {
@@ -445,7 +455,8 @@ func (rw *fileRewriter) run(isMain bool) {
 				if r, ok := timeMap[name]; ok {
 					repl, kind = r, "clock"
 				} else if timeUnseamed[name] {
-					rw.unseamed(x.Pos(), "time."+name+" (timers are not behind a seam)")
+					// timers are owned by the synctest bubble's fake clock
+					rw.seam("timer", x.Pos(), "time."+name+" (bubble clock)")
 				}
 			case "os":
 				if r, ok := osMap[name]; ok {
